@@ -138,7 +138,7 @@ def check_vector(v):
     total = len(body)
     Ks = sorted(set([largest, largest + 1, largest + 2, total - 1, total, total + 1] + list(range(largest, total + 2, 7))))
     if len(Ks) > 40:        # files with very long records: the ends of the range and an even sample of it
-        Ks = sorted(set(Ks[:6] + Ks[-6:] + Ks[::len(Ks) // 28]))
+        Ks = sorted(set(Ks[:4] + Ks[-4:] + Ks[::len(Ks) // 10]))
     for K in Ks:
         if K < largest:
             continue
@@ -293,13 +293,17 @@ def run(ctx):
                    invariants=["RoundTrip", "SizesAdd", "Emit"])
     vectors += [v for v in res4.vectors if len(v["recs"]) >= 4]
     # very long records: 300 CIGAR operations, a read of 65 537 bases (fields whose upper bytes are zero in every short record)
-    resl = ctx.tlc("MC_C16", tag="MC_C16_long", spec="Spec", constants={"MaxRecs": 2, "Pick": [1, 11, 12, 13] if quick else [1, 2, 11, 12, 13]}, invariants=["RoundTrip", "SizesAdd", "Emit"])
-    vectors += [v for v in resl.vectors if any(len(r["cigar"]) > 255 or len(r["seq"]) > 65535 for r in v["recs"])]
+    # (quick: each long template alone, and the long read next to a short record; thorough: every pair - the 16 400-operation template costs TLC
+    # about eight seconds per state that holds it)
+    is_long = lambda r: len(r["cigar"]) > 255 or len(r["seq"]) > 65535
+    for tag_, mr, pick in ((("alone", 1, [11, 12, 13]), ("pairs", 2, [1, 12])) if quick else (("pairs", 2, [1, 2, 11, 12, 13]),)):
+        resl = ctx.tlc("MC_C16", tag="MC_C16_long_" + tag_, spec="Spec", constants={"MaxRecs": mr, "Pick": pick}, invariants=["RoundTrip", "SizesAdd", "Emit"])
+        vectors += [v for v in resl.vectors if any(is_long(r) for r in v["recs"])]
     for i, v in enumerate(vectors):
         v["_id"] = i
         v["_dir"] = ctx.work
     ctx.sample({"recs": vectors[1]["recs"], "bytes": vectors[1]["bytes"]})
-    ctx.absorb(core.pmap(check_vector, vectors, chunk=4))
+    ctx.absorb(core.pmap(check_vector, vectors[::-1], chunk=1))      # the files with very long records first, one per worker
     ctx.exhaustive = True
     return ctx.finish(RULE, assumptions=[
         "the BAM container is a BAM header followed by the records, gzip-compressed as one member, plus the BGZF EOF block (the library reads BAM through gzip)",
